@@ -1284,7 +1284,9 @@ func (se *SpecEnv) heapFunc(pf *PureFunc, args []Val) (Val, error) {
 			for i, p := range pf.Params {
 				switch p.Type.Underlying().(type) {
 				case *types.Pointer, *types.Map, *types.Chan:
-					guards = append(guards, "(<= "+qs[i]+" "+frontier+")")
+					// both bounds: a function that returns one of its arguments must not be forced into
+					// [0, frontier] for arguments outside it (that made the axioms contradictory)
+					guards = append(guards, "(<= 0 "+qs[i]+")", "(<= "+qs[i]+" "+frontier+")")
 				}
 			}
 			wt := fc.wellTyped(lhs, pf.Ret, frontier, 1)
